@@ -9,3 +9,8 @@ import DateutilVerif.Properties.C11
 #print axioms C11.all_complete
 #print axioms C11.nested_no_deadlock_partial
 #print axioms C11.nested_all_complete_partial
+#print axioms C11.nested_init_fresh
+#print axioms C11.nested_no_deadlock_init
+#print axioms C11.nested_progress_partial
+#print axioms C11.nested_exec_bound
+#print axioms C11.genraise_cached_differs
